@@ -187,10 +187,17 @@ class CategoricalCalibration(keras.layers.Layer):
 
     # categorical calibration layer kernel is units-column matrix with value of
     # output(i) = self.kernel[i]. Default value converted to the last index.
+    kernel_initializer = self.kernel_initializer
+    if self.monotonicities:
+      # Randomly initialized values need not be ordered: start from their
+      # projection onto the constraints.
+      kernel_initializer = (
+          lambda shape, dtype=None, **kwargs: constraints(  # pylint: disable=g-long-lambda
+              self.kernel_initializer(shape, dtype=dtype, **kwargs)))
     self.kernel = self.add_weight(
         CATEGORICAL_CALIBRATION_KERNEL_NAME,
         shape=[self.num_buckets, self.units],
-        initializer=self.kernel_initializer,
+        initializer=kernel_initializer,
         regularizer=kernel_reg,
         constraint=constraints,
         dtype=self.dtype)
